@@ -463,7 +463,7 @@ mod k {
         kani::cover!(!ok, "rejected (invalid UTF-8)");
     }
 
-    /// VERIF: {"p":"C05","tier":"quick","fns":["radv::icmppkt::parse","radv::icmppkt::parse_nd_rtr_options (CAPTIVE_PORTAL arm)"],"bounds":"captive-portal option (type 37) whose payload is all NUL (empty URL; rposition finds nothing) with length octet 1 (RS, RA) and 2 (RS), the option one octet short (RS, 15 and 23 octets), length octet 3 overrunning a 24-octet message, length octet 255 in a 48-octet message","oracle":"all-NUL payload decodes to the empty URL, truncated/overrunning options are errors; never a panic (unwrap_or(0) slice)","covers":2,"unwind":20}
+    /// VERIF: {"p":"C05","tier":"quick","fns":["radv::icmppkt::parse","radv::icmppkt::parse_nd_rtr_options (CAPTIVE_PORTAL arm)"],"bounds":"captive-portal option (type 37) whose payload is all NUL (empty URL; rposition finds nothing) with length octet 1 (RS, RA) and 2 (RS), the option one octet short (RS, 15 and 23 octets), length octet 3 overrunning a 24-octet message, length octet 255 in a 24-octet message","oracle":"all-NUL payload decodes to the empty URL, truncated/overrunning options are errors; never a panic (unwrap_or(0) slice)","covers":2,"unwind":20}
     #[kani::proof]
     #[kani::unwind(20)]
     fn c05_icmp_captive_portal_empty_and_truncated() {
@@ -474,7 +474,7 @@ mod k {
             3 => portal::<15>(RS, 8, 1, 0, 0),
             4 => portal::<23>(RS, 8, 2, 0, 0),
             5 => portal::<24>(RS, 8, 3, 0, 0),
-            _ => portal::<48>(RS, 8, 255, 0, 0),
+            _ => portal::<24>(RS, 8, 255, 0, 0),
         };
         kani::cover!(ok, "empty url decoded");
         kani::cover!(!ok, "rejected (truncated)");
